@@ -7,5 +7,5 @@ MCShapes == GenWholeShapes(MCLong)
 MCProps == {"C18", "C03", "C02"}
 MCScript == <<"SetObj", "NewEmpty", "CopyTo">>
 ASSUME PrintT("SHAPES " \o ToJson(MCShapes))
-INSTANCE Session WITH Shapes <- MCShapes, Script <- MCScript, Deep <- MCDeep, Props <- MCProps, ObjMode <- "all", RawMode <- "plans"
+INSTANCE Session WITH Shapes <- MCShapes, Script <- MCScript, Deep <- MCDeep, Props <- MCProps, ObjMode <- "all", RawMode <- "plans", EmptyMode <- "plain"
 ====
